@@ -1068,8 +1068,16 @@ impl Sim {
                 }
             }
             // a forgotten job is gone from the server (its records may go)
-            let known: Vec<u32> = snapshot_jobs(&self.world.state_ref).iter().map(|j| j.id).collect();
-            let missing: Vec<u32> = jobs.iter().copied().filter(|j| !lj.contains(j) && known.contains(j)).collect();
+            let snap_jobs = snapshot_jobs(&self.world.state_ref);
+            let known: Vec<u32> = snap_jobs.iter().map(|j| j.id).collect();
+            let all_missing: Vec<u32> = jobs.iter().copied().filter(|j| !lj.contains(j) && known.contains(j)).collect();
+            // a closed job WITHOUT tasks is never reported completed (finding F18): it is stored, has no JobCompleted record
+            // and is not live for the prune; its records are dropped (consequence of the same defect, own signature)
+            let empty: Vec<u32> = all_missing.iter().copied().filter(|j| snap_jobs.iter().any(|x| x.id == *j && !x.open && x.tasks.is_empty())).collect();
+            let missing: Vec<u32> = all_missing.iter().copied().filter(|j| !empty.contains(j)).collect();
+            if !empty.is_empty() {
+                self.job.lines.push(format!("mon FAIL c12.live_sets empty-uncompleted-job-not-kept the prune request names live jobs {:?} but the closed jobs without tasks {:?} have no JobCompleted record and are still stored", lj, empty));
+            }
             if !missing.is_empty() {
                 self.job.lines.push(format!("mon FAIL c12.live_sets live-job-not-kept the prune request names live jobs {:?} but jobs {:?} have no JobCompleted record and are still stored", lj, missing));
             }
